@@ -398,37 +398,83 @@ Proof.
     rewrite (IH ys eq_refl). cbn [obind] in *. inversion H. reflexivity.
 Qed.
 
-Lemma to_csv_forget f tc : to_csv format_float (forget_frame f) tc = to_csv format_float f tc.
+Lemma to_csv_forget f tc wf :
+  iter_cols f tc = Ok wf -> to_csv format_float (forget_frame f) tc = to_csv format_float f tc.
 Proof.
-  unfold to_csv, to_csv_records.
+  intros E. unfold to_csv, to_csv_records.
   assert (frame_len (forget_frame f) = frame_len f) as Hl.
   { destruct f as [|[n c] f]; [reflexivity|]. destruct c; reflexivity. }
-  destruct (iter_cols f tc) as [wf| |] eqn:E.
-  - rewrite (iter_cols_forget f tc wf E). cbn [obind]. rewrite Hl. unfold forget_frame. rewrite !map_map. cbn [fst snd].
-    rewrite (map_ext (fun x : bytes * column => col_strings (forget_vals (snd x))) (fun x => col_strings (snd x)))
-      by (intros x; apply col_strings_forget). reflexivity.
-  - unfold iter_cols in *. destruct (tc_columns tc) as [order|]; [|discriminate].
-    unfold forget_frame at 1. rewrite map_length.
-    destruct (negb (Nat.eqb (length order) (length f))); [reflexivity|]. exfalso.
-    revert E. generalize (@nil (bytes * column)). induction order as [|name order IH]; intros acc E; [discriminate|].
-    cbn [omap] in E. destruct (find_col name f) as [nc|]; cbn [obind] in E.
-    + destruct (omap (fun name0 => match find_col name0 f with Some nc0 => Ok nc0 | None => Fail end) order)
-        as [ys| |] eqn:E2; try discriminate. eapply IH. reflexivity.
-    + clear IH.
-      assert (forall l, omap (fun name0 : bytes =>
-                match find_col name0 (forget_frame f) with Some nc0 => Ok nc0 | None => Fail end) l <> Panic) as HP.
-      { induction l as [|x l IHl]; [discriminate|]. cbn [omap]. destruct (find_col x (forget_frame f)); cbn [obind]; [|discriminate].
-        destruct (omap _ l); try discriminate. congruence. }
-      exact I.
-  - exfalso. unfold iter_cols in E. destruct (tc_columns tc) as [order|]; [|discriminate].
-    destruct (negb (Nat.eqb (length order) (length f))); [discriminate|].
-    induction order as [|name order IH]; [discriminate|].
-    cbn [omap] in E. destruct (find_col name f); cbn [obind] in E; [|discriminate].
-    destruct (omap (fun name0 => match find_col name0 f with Some nc0 => Ok nc0 | None => Fail end) order);
-      try discriminate. apply IH. reflexivity.
+  rewrite E, (iter_cols_forget f tc wf E). cbn [obind]. rewrite Hl. unfold forget_frame. rewrite !map_map. cbn [fst snd].
+  rewrite (map_ext (fun x : bytes * column => col_strings (forget_vals (snd x))) (fun x => col_strings (snd x)))
+    by (intros x; apply col_strings_forget). reflexivity.
+Qed.
+
+(* the written frame read back by a reader that declares the types only *)
+Theorem roundtrip_undeclared f tc wf doc e (chunks : list bytes) (t : rterm) :
+  iter_cols f tc = Ok wf ->
+  to_csv format_float f tc = Ok doc ->
+  rt_premises e (frame_len f) (forget_frame wf) = true ->
+  forallb (fun nc => card_ok e (snd nc)) (forget_frame wf) = true ->
+  Forall (fun c : bytes => c <> []) chunks -> concat chunks = doc -> (t = TEofSep \/ t = TEofWith) ->
+  read_csv_buf atoi parse_float atob (read_conf_for e (tc_header tc) (forget_frame wf)) chunks t
+  = Ok (map (fun nc => (fst nc, readback_col e (forget_vals (snd nc)))) wf).
+Proof.
+  intros Hiter Hcsv Hprem Hcard Hne Hcat Ht.
+  assert (frame_len (forget_frame f) = frame_len f) as Hl.
+  { destruct f as [|[n c] f']; [reflexivity|]. destruct c; reflexivity. }
+  rewrite (roundtrip_fragmented (forget_frame f) tc (forget_frame wf) doc e chunks t); try assumption.
+  - unfold forget_frame. rewrite map_map. reflexivity.
+  - apply iter_cols_forget. exact Hiter.
+  - rewrite (to_csv_forget f tc wf Hiter). exact Hcsv.
+  - rewrite Hl. exact Hprem.
 Qed.
 
 End RoundTrip2.
+
+(* the cardinality premise in terms of the number of distinct cell strings *)
+Lemma first_occ_le_nodup e (cells : list bytes) :
+  (length (first_occ e cells) <= length (nodup (list_eq_dec N.eq_dec) cells))%nat.
+Proof.
+  apply NoDup_incl_length; [apply first_occ_NoDup; constructor|].
+  intros s Hs. apply nodup_In. unfold first_occ in Hs. apply first_occ_incl in Hs as [[]|[Hs _]]. exact Hs.
+Qed.
+
+(* the statement kept open by the first wave (Properties/C13.v C13_nonstrict_enum_full_statement) *)
+Theorem nonstrict_enum_names
+  (format_float : N -> bytes) (parse_float : bytes -> option N)
+  (float_roundtrip : forall x, is_nan_bits x = false ->
+       format_float x <> [] /\ no_cr (format_float x) = true /\ parse_float (format_float x) = Some x)
+  (f : frame) (tc : to_conf) (wf : frame) (doc : bytes) (e : bool) :
+  iter_cols f tc = Ok wf ->
+  to_csv format_float f tc = Ok doc ->
+  rt_premises e (frame_len f) wf = true ->
+  (forall n vals l, In (n, ColEnum vals l) wf -> vals = [] ->
+     (length (nodup (list_eq_dec N.eq_dec) (map (fun o => match o with Some s => s | None => [] end) l))
+      <= enum_max_cardinality)%nat) ->
+  exists g, read_csv_spec atoi parse_float atob (read_conf_for e (tc_header tc) wf) doc = Ok g /\
+            map fst g = map fst wf.
+Proof.
+  intros Hiter Hcsv Hprem Hcard.
+  exists (map (fun nc => (fst nc, readback_col e (snd nc))) wf). split.
+  - apply (roundtrip2 format_float parse_float float_roundtrip f); try assumption.
+    apply forallb_forall. intros [n c] Hnc. cbn [snd].
+    destruct c as [l|l|l|l|[|v vals] l|]; try reflexivity. cbn [card_ok]. apply Nat.leb_le.
+    eapply Nat.le_trans; [apply first_occ_le_nodup|]. apply (Hcard n [] l Hnc eq_refl).
+  - rewrite map_map. reflexivity.
+Qed.
+
+(* the limit is sharp: with more than 255 distinct non-null strings the non-strict reader reports an error *)
+Theorem nonstrict_overflow (parse_float : bytes -> option N) e ev (cells : list bytes) :
+  ev = None \/ ev = Some [] ->
+  (enum_max_cardinality < length (first_occ e cells))%nat ->
+  column_to_data atoi parse_float atob e DEnum ev cells = Fail.
+Proof.
+  intros Hev Hlen. unfold column_to_data. rewrite andb_false_r. cbn iota.
+  assert (match ev with Some v => v | None => [] end = []) as -> by (destruct Hev as [-> | ->]; reflexivity).
+  change (Nat.ltb enum_max_cardinality (length (@nil bytes))) with false. cbn iota.
+  change (Nat.ltb 0 (length (@nil bytes))) with false.
+  rewrite (enum_fill_nonstrict_full e cells [] [] Hlen); [reflexivity|]. cbn. lia.
+Qed.
 
 (* ================================================================ 3. from a physical frame *)
 
@@ -718,3 +764,98 @@ Proof.
 Qed.
 
 End Physical.
+
+(* ---------------------------------------------------------------- Columns(order) is Select on the table *)
+
+Lemma last_pos_notin name : forall names pos acc, ~ In name names -> last_pos_from name names pos acc = acc.
+Proof.
+  induction names as [|n names IH]; intros pos acc H; [reflexivity|]. cbn [last_pos_from].
+  rewrite IH by (intros Hin; apply H; right; exact Hin).
+  destruct (bytes_eqb n name) eqn:E; [|reflexivity]. apply bytes_eqb_spec in E. exfalso. apply H. left. exact E.
+Qed.
+
+Lemma last_pos_find name nc : forall (o : CsvSpec.frame) pos acc,
+  NoDup (map fst o) -> find_col name o = Some nc ->
+  exists p, last_pos_from name (map fst o) pos acc = Some (pos + p) /\ nth_error o p = Some nc.
+Proof.
+  induction o as [|[n c] o IH]; intros pos acc Hnd H; [discriminate|].
+  cbn [find_col] in H. cbn [map fst last_pos_from]. inversion Hnd as [|? ? Hnot Hnd']; subst.
+  destruct (bytes_eqb n name) eqn:E.
+  - inversion H; subst. apply bytes_eqb_spec in E. subst n. exists 0. rewrite Nat.add_0_r.
+    split; [apply last_pos_notin; exact Hnot | reflexivity].
+  - destruct (IH (S pos) acc Hnd' H) as (p & H1 & H2). exists (S p). split; [|exact H2].
+    rewrite H1. f_equal. lia.
+Qed.
+
+Lemma nth_map_nth_error {A B} (g : A -> B) (l : list A) p x d : nth_error l p = Some x -> nth p (map g l) d = g x.
+Proof.
+  revert p. induction l as [|y l IH]; intros [|p] H; try discriminate.
+  - inversion H. reflexivity.
+  - cbn [map nth]. apply IH. exact H.
+Qed.
+
+Theorem columns_order_is_select n (o wf : CsvSpec.frame) tc order :
+  NoDup (map fst o) -> order <> [] -> tc_columns tc = Some order ->
+  iter_cols o tc = Ok wf ->
+  tselect (table_of n o) order = Some (table_of n wf).
+Proof.
+  intros Hnd Hne Htc Hit. unfold iter_cols in Hit. rewrite Htc in Hit.
+  destruct (negb (Nat.eqb (length order) (length o))); [discriminate|].
+  assert (exists ps, tpositions (table_of n o) order = Some ps /\ map fst wf = order
+                     /\ Forall2 (fun p nc => nth_error o p = Some nc) ps wf) as (ps & Hps & Hnames & HF).
+  { clear Hne Htc. revert wf Hit. induction order as [|name order IH]; intros wf Hit.
+    - cbn in Hit. inversion Hit. exists []. repeat split. constructor.
+    - apply omap_cons_ok in Hit as (y & ys & Hy & Hys & ->).
+      destruct (find_col name o) as [nc|] eqn:F; [|discriminate]. inversion Hy; subst y.
+      destruct (IH ys Hys) as (ps & H1 & H2 & H3).
+      destruct (last_pos_find name nc o 0 None Hnd F) as (p & P1 & P2).
+      exists (p :: ps). cbn [tpositions]. unfold tpos. cbn [table_of tnames]. rewrite P1.
+      fold (table_of n o). rewrite H1. split; [reflexivity|]. split.
+      + cbn [map]. rewrite H2. apply find_col_some in F as [_ F]. rewrite F. reflexivity.
+      + constructor; assumption. }
+  unfold tselect. destruct order as [|name0 order0]; [congruence|]. rewrite Hps.
+  f_equal. unfold table_of. cbn [ttypes trows]. rewrite Hnames. f_equal.
+  - clear Hps Hnames Hit. induction HF as [|p nc ps wf' Hp _ IH]; [reflexivity|]. cbn [map]. rewrite IH. f_equal.
+    apply (nth_map_nth_error (fun nc : bytes * column => col_ctype (snd nc)) o p nc TInt Hp).
+  - rewrite map_map. apply map_ext. intros i.
+    clear Hps Hnames Hit. induction HF as [|p nc ps wf' Hp _ IH]; [reflexivity|]. cbn [map]. rewrite IH. f_equal.
+    apply (nth_map_nth_error (fun nc : bytes * column => nth i (col_cells (snd nc)) (CInt 0)) o p nc (CInt 0) Hp).
+Qed.
+
+Section PhysicalColumns.
+Variable format_float : N -> bytes.
+Variable parse_float : bytes -> option N.
+Hypothesis float_roundtrip : forall x,
+  is_nan_bits x = false ->
+  format_float x <> [] /\ no_cr (format_float x) = true /\ parse_float (format_float x) = Some x.
+
+(* with Columns(order), order duplicate-free: the table read back is Select(order...) of the logical table *)
+Corollary roundtrip_physical_columns (f : frame) (t : table) hdr order doc e (chunks : list bytes) (term : rterm) :
+  abs f = Ok t -> NoDup (col_names f) ->
+  phys_premises e f = true -> has_dup order = false ->
+  frame_to_csv format_float f (mkToConf hdr (Some order)) = Ok doc ->
+  Forall (fun c : bytes => c <> []) chunks -> concat chunks = doc -> (term = TEofSep \/ term = TEofWith) ->
+  exists o wf g t',
+    observe_frame f = Ok o /\ iter_cols o (mkToConf hdr (Some order)) = Ok wf /\
+    tselect t order = Some t' /\
+    read_csv_buf atoi parse_float atob (read_conf_for e hdr wf) chunks term = Ok g /\
+    table_of (length (ix f)) g = norm_table e t'.
+Proof.
+  intros Ht Hnd Hprem Hord Hcsv Hne Hcat Hterm.
+  destruct (roundtrip_physical format_float parse_float float_roundtrip f t (mkToConf hdr (Some order)) doc e chunks term
+              Ht Hnd Hprem) as (o & wf & g & H1 & H2 & H3 & H4 & H5 & H6 & H7 & H8); try assumption.
+  { intros order' H. inversion H; subst. exact Hord. }
+  cbn [tc_columns tc_header] in *.
+  destruct (iter_cols_spec o _ wf H3) as (_ & Hlen & _).
+  assert (o <> []) as Hone.
+  { unfold phys_premises in Hprem. rewrite H1 in Hprem. destruct o; [discriminate Hprem | discriminate]. }
+  assert (order <> []) as Hon.
+  { rewrite <- H5. destruct wf; [|discriminate]. destruct o; [congruence | discriminate Hlen]. }
+  assert (NoDup (map fst o)) as Hndo.
+  { destruct (abs_ok f t Ht) as (_ & N & _). rewrite <- H2 in N. cbn [table_of tnames] in N. rewrite N. exact Hnd. }
+  exists o, wf, g, (table_of (length (ix f)) wf).
+  split; [exact H1|]. split; [exact H3|]. split; [|split; [exact H6 | exact H8]].
+  rewrite <- H2. apply (columns_order_is_select _ o wf (mkToConf hdr (Some order)) order); auto.
+Qed.
+
+End PhysicalColumns.
